@@ -137,7 +137,9 @@ def run(scn, ch):
     written = {}
 
     def extra(world):
-        evs = [Req('incr', name='a'), Req('decr', name='a'), Req('restart', label='restart(b)', name='b')]
+        evs = [Req('incr', name='a'), Req('decr', name='a'), Req('restart', label='restart(b)', name='b'),
+               Req('restart', label='restart(a)', name='a'), Req('reload', label='reload(a)', name='a'),
+               Req('set', label='set(a.stdout_stream.x)', name='a', options={'stdout_stream.x': 'y'})]
         ws = sorted(world.watcher('a').processes) if world.watcher('a') else []
         if len(ws) >= 2:
             evs.append(Req('kill', label='kill(sibling)', name='a', pid=ws[1]))
